@@ -57,6 +57,9 @@ def run(chk, repo, tier):
     C18b.run_g12(chk, G12, repo)
     G13 = chk.rule('G13', 'search-space algebra: per-key set differences iterate over the keys of the minuend', floor=2)
     C18b.run_g13(chk, G13, repo)
+    G15 = chk.rule('G15', 'least_number_of_transformations: function look-up keys have the component kinds the feature '
+                          'modules generate', floor=4)
+    C18b.run_g15(chk, G15, repo)
     G8 = chk.rule('G8', 'children[k] is not read unconditionally when the interpreter itself asserts that fewer '
                         'children are possible', floor=3)
 
